@@ -133,6 +133,24 @@ def run(pid, tier, seed, replay=None):
                                              "engine": "builder", "scenario": bby[r["id"]]})
                     new.append(("%s fired for builder sequence %s" % (bmap[v], r["id"]), path))
         tv_states += bstates
+        # Windows variant: the environment block (format_env_block extracted from the source) read back by WinEnv.tla
+        from . import c_quote
+        r = tlc_mc("MCWinEnv.tla", "MC_WinEnv_t.cfg" if tier == "thorough" else "MC_WinEnv.cfg", "C06_winenv", workers=4)
+        mc.append({k: r[k] for k in ("cfg", "states", "distinct", "ok", "error", "wall_s")})
+        log("[mc] %s: %d requests, ok=%s (%.1fs)" % (r["cfg"], r["distinct"], r["ok"], r["wall_s"]))
+        wcases = c_quote.win_env_cases(seed, tier == "thorough")
+        wres, wstates = c_quote.run_cases(wcases, "C06env")
+        wby = {x["id"]: x for x in wcases}
+        wseen = set()
+        for r in wres:
+            for v in r["viol"]:
+                if v.startswith("C06_") and v not in wseen:
+                    wseen.add(v)
+                    path = save_replay(pid, {"property": pid, "monitor": v, "signature": v + "/winenv", "engine": "quote",
+                                             "scenario": wby[r["id"]]})
+                    new.append(("%s fired for the Windows environment block of request %s" % (v, r["id"]), path))
+        tv_states += wstates
+        extra_traces += len(wres)
         extra_traces += len(bres)
     samples = [{"scenario": by_id[i], "trace_head": [json.loads(x) for x in blk[i][1:10]]} for i in list(blk)[:2]]
     cov = {
